@@ -6,6 +6,7 @@
 #include "refformat.hpp"
 #include "zoo_driver.hpp"
 
+#include <cmath>
 #include <sstream>
 
 namespace zd {
@@ -31,11 +32,13 @@ uint64_t draw_bits(Sc s)
 }
 
 // configurations and storage as arbitrary bit patterns; extents consistent with the storage
-Case draw_bits_case(const model::Desc & d)
+Case draw_bits_case(const model::Desc & d, bool allow_large)
 {
     Case c;
     const size_t L = d.layers.size();
     c.cfg.assign(L, {});
+    // one case in twelve is a large field: scalar counts straddling 2^10 .. 2^17 (block-wise IO code paths)
+    const bool large = allow_large && *in_range<unsigned>(0, 11) == 0;
     for (size_t k = 0; k < L; ++k) {
         const model::Layer & l = d.layers[k];
         if (l.kind == "constant") {
@@ -59,15 +62,50 @@ Case draw_bits_case(const model::Desc & d)
             }
         } else if (l.kind == "strided" || l.kind == "morton" || l.kind == "hilbert") {
             uint64_t cells = 1;
-            for (size_t a = 0; a < l.N; ++a) {
+            if (large) {
+                // target scalar count 2^k + delta, spread over the axes
+                const uint64_t target = ((uint64_t(1) << *in_range<unsigned>(10, 17)) + uint64_t(*in_range<int>(-3, 40))) / l.M + 1;
+                uint64_t rest = target;
+                for (size_t a = 0; a < l.N; ++a) {
+                    uint64_t e = (a + 1 == l.N) ? rest : std::max<uint64_t>(1, uint64_t(std::llround(std::pow(double(rest), 1.0 / double(l.N - a)))));
+                    if (l.kind != "strided") {
+                        e = std::min<uint64_t>(e, l.N == 1 ? 200000 : l.N == 2 ? 400 : l.N == 3 ? 50 : 18);   // curve storage is side^N
+                    }
+                    e = std::max<uint64_t>(e, 1);
+                    rest = std::max<uint64_t>(1, rest / e);
+                    c.ext.push_back(e);
+                    c.cfg[k].push_back(e);
+                    cells *= e;
+                }
+            }
+            for (size_t a = 0; a < l.N && !large; ++a) {
                 // extents include 1, non-powers of two and (rarely) 0: an empty field is a field and can be dumped
                 uint64_t e = *rc::gen::weightedOneOf<uint64_t>({{1, rc::gen::just<uint64_t>(0)}, {4, rc::gen::just<uint64_t>(1)}, {14, in_range<uint64_t>(2, l.N <= 2 ? 7 : l.N == 3 ? 5 : 3)}});
                 c.ext.push_back(e);
                 c.cfg[k].push_back(e);
                 cells *= e;
             }
-            for (uint64_t i = 0; i < cells * l.M; ++i) {
-                c.data.push_back(draw_bits(l.out));
+            if (large) {
+                // large payloads are a pure function of ONE drawn seed (keeps the rapidcheck recipe small);
+                // the same awkward bit-pattern classes as draw_bits
+                const uint64_t seed = *rc::gen::arbitrary<uint64_t>();
+                for (uint64_t i = 0; i < cells * l.M; ++i) {
+                    uint64_t r = mix(seed, i);
+                    unsigned k = unsigned(mix(r, 7) % 12);
+                    uint64_t w;
+                    if (l.out == Sc::f32) {
+                        static const uint32_t sp[] = {0x00000000u, 0x80000000u, 0x7f800000u, 0xff800000u, 0x7fc00000u, 0x7fa00001u, 0xffc12345u, 0x00000001u, 0x807fffffu, 0x00800000u};
+                        w = k < 10 ? sp[k] : uint32_t(r);
+                    } else {
+                        static const uint64_t sp[] = {0x0ull, 0x8000000000000000ull, 0x7ff0000000000000ull, 0xfff0000000000000ull, 0x7ff8000000000000ull, 0x7ff4000000000001ull, 0xfff8000000abcdefull, 0x1ull, 0x800fffffffffffffull, 0x0010000000000000ull};
+                        w = k < 10 ? sp[k] : r;
+                    }
+                    c.data.push_back(w);
+                }
+            } else {
+                for (uint64_t i = 0; i < cells * l.M; ++i) {
+                    c.data.push_back(draw_bits(l.out));
+                }
             }
         }
     }
@@ -209,7 +247,7 @@ ModeReg reg("C06", [](const zoo::Factory & f) {
     add_inst(
         ctx->inst,
         [ctx] {
-            auto g = rc::gen::exec([ctx] { return draw_bits_case(ctx->d); });
+            auto g = rc::gen::exec([ctx] { return draw_bits_case(ctx->d, true); });
             rc_campaign<Case>(ctx->inst, tier(150, 3000), 100, g, [ctx](const Case & c) { return run(*ctx, c); });
         },
         [ctx](const json & j) { return run(*ctx, Case::from_json(j)); }
